@@ -302,7 +302,7 @@ const fn convert_p32bits_to_u64(ui_a: u32) -> u64 {
                 }
             }
             i_z >> (62 - scale) // Right-justify the integer.
-        } else if scale > 64 {
+        } else if scale > 62 {
             i_z << (scale - 62)
         } else {
             i_z
